@@ -19,7 +19,7 @@ PID = "C20"
 LEVEL = "exploration"
 RULE = (
     "Hypothesis arithmetic-heavy, constant-rich expression trees (all 7 binary and 2 unary interceptable operators, ~, "
-    "comparisons, and/or, conditional expressions, filters with arguments, calls; depth <= 4 quick / 5 thorough) placed in an "
+    "comparisons, and/or, conditional expressions, filters with arguments, calls, subscripts and slices with signed literal / variable indexes and bounds; depth <= 4 quick / 5 thorough) placed in an "
     "output, a set, an if test, an inline-if test, a filter argument, a call argument, a macro default or a loop filter, x a generated context, x a "
     "subset of the 9 interceptable operators (sampled from all 512 in quick; every subset is drawn from in thorough: 32 per shard), "
     "sync and async, optimized on/off. Non-trivial = some intercepted operator is applied to constant operands only (a "
@@ -233,6 +233,13 @@ def check_case(case):
         labels.append("hook_called")
     if cand:
         labels.append("folding_candidate")
+    for n in gexpr.walk(expr):
+        if n[0] in ("item", "slice"):
+            signed = [x for x in (n[2:3] if n[0] == "item" else n[2:5]) if x is not None and x[0] == "unary" and x[1] != "not"]
+            if signed:
+                labels.append("signed_index" if n[0] == "item" else "signed_slice_bound")
+                if any(x[1] in unops for x in signed):
+                    labels.append("intercepted_sign_in_subscript")
     if hit and not want_log:
         labels.append("intercepted_not_reached")
     if not binops and not unops:
@@ -282,7 +289,8 @@ def floors(total, tier):
     n = total.evaluations - total.discarded - total.excluded
     if n and total.labels.get("folding_candidate", 0) < 0.25 * n:
         return "folding_candidate %d of %d judged cases (< 25 %%)" % (total.labels.get("folding_candidate", 0), n)
-    for lab in ["place_" + p for p in PLACES] + ["async", "sync", "optimized", "unoptimized", "hook_called", "outcome_err"]:
+    for lab in ["place_" + p for p in PLACES] + ["async", "sync", "optimized", "unoptimized", "hook_called", "outcome_err",
+                                                       "signed_index", "signed_slice_bound", "intercepted_sign_in_subscript"]:
         if total.labels.get(lab, 0) < 50:
             return "label %s seen %d times (< 50)" % (lab, total.labels.get(lab, 0))
     return None
